@@ -141,7 +141,7 @@ KINDS = ["AtLeast", "AtLeastS", "AtMost", "All", "Any", "Xor", "XNor", "Imply", 
 
 class ModelGen:
     """Structured generator of proposition ASTs over a small leaf alphabet."""
-    def __init__(self, rng, nleaf=None, int_leaves=0.35, big=0.05, share=0.15, explicit=0.6, kinds=None, prefix="", strleaf=0.3, constvar=0.0):
+    def __init__(self, rng, nleaf=None, int_leaves=0.35, big=0.05, share=0.15, explicit=0.6, kinds=None, prefix="", strleaf=0.3, constvar=0.0, huge=0.2):
         self.rng = rng
         self.constvar = constvar
         self.share = share
@@ -156,6 +156,8 @@ class ModelGen:
             r = rng.random()
             if r < big:
                 lo = rng.choice([-32768, -1000, -5, 0]); hi = rng.choice([32767, 1000, 7])
+                if rng.random() < huge:      # far beyond the default 16-bit range (sums of such bounds exceed 32 bits)
+                    lo = rng.choice([0, -1_500_000_000, -5]); hi = rng.choice([1_500_000_000, 2_000_000_000])
                 self.leaves[nm] = [lo, hi]
             elif r < int_leaves:
                 lo = rng.randint(-4, 1); hi = lo + rng.randint(0, 5)
